@@ -118,6 +118,12 @@ for _n in ("f_join_bl", "f_join_bb", "f_cross_bl"):
     GENERATED_ONLY[_n] = F(["kv" if "join" in _n else "n"], "unord", heavy=True)
 for _n in ("f_join_br", "f_cross_br"):
     GENERATED_ONLY[_n] = F(["kv" if "join" in _n else "n"], "ord", heavy=True, props=("C28", "C29"))
+GENERATED_ONLY["t_difference"] = F(["n", "n"], "ord", props=("C30",))
+GENERATED_ONLY["t_cross_nested"] = F(["n", "n"], "ord", heavy=True, props=("C30",))
+GENERATED_ONLY["t_singleton_const"] = F(["n"], "ord", props=("C30",))
+GENERATED_ONLY["t_first_tick"] = F(["n"], "ord", props=("C30",))
+GENERATED_ONLY["f_difference_b"] = F(["n"], "unord", heavy=True)
+GENERATED_ONLY["f_partition"] = F(["n"], "unord")
 for _n, _i, _k in (("x_across_enumerate", "n", "ord"), ("x_across_reduce", "n", "agg"), ("x_across_limit", "n", "ord"),
                    ("x_across_fold_keyed", "kv", "keyed"), ("x_across_reduce_keyed", "kv", "keyed"),
                    ("x_across_enumerate_unique", "n", "ord")):
@@ -465,6 +471,11 @@ MODELLED_NODES = {
     "JoinHalf": "SJoinHalf (top level, Bounded right side) / BJoin / BCross",
     "ChainFirst": "BChainFirst (Optional::or in a tick)",
     "BeginAtomic": "identity in production; Atomic = top level for lifetimes",
+    "Difference": "SDifference (Bounded negative side) / BDifference",
+    "CrossProduct": "BCrossNL (cross_product_nested_loop)",
+    "SingletonSource": "BConst / BFirstTick (in a tick)",
+    "PartitionShared": "SPart (shared, both sides filters of one predicate)",
+    "PartitionSide": "SPart true / false",
     "EndAtomic": "identity in production",
     "ReduceKeyedWatermark": "BReduceKeyedWm (in a tick)",
 }
@@ -811,6 +822,7 @@ CLOSURES = {
     "| (x , c) | (x , c as u32)": "(fun p => p)",
     "| x | x * 2": "(vn1 (fun x => x * 2))",
     "| x | * x != 0": "(fun v => negb (n_of v =? 0))",
+    "| x | * x % 2 == 1": "(fun v => n_of v mod 2 =? 1)",
     "| (i , x) | (i as u32 + 1) * x": "(fun p => VN ((kf p + 1) * vf p))",
     # binary accumulators
     "| acc , x | * acc = (* acc * 2 + x) % 1009": "(vn2 (fun a x => (a * 2 + x) mod 1009))",
@@ -958,6 +970,20 @@ def tr_s(x):
         return "(SJoin %s %s)" % (tr_s(v["left"]), tr_s(v["right"]))
     if k == "JoinHalf":
         return "(SJoinHalf %s %s)" % (tr_s(v["left"]), tr_s(v["right"]))
+    if k == "Difference":
+        nk, nv = _node(v["neg"])
+        if nk != "Source" or "Iter" not in nv["source"]:
+            raise Untranslatable("filter_not_in whose negative side is not a source_iter")
+        return "(SDifference %s %s)" % (tr_s(v["pos"]), g_vals(_iter_vals(nv["source"]["Iter"])))
+    if k == "PartitionSide":
+        second = "$shared_ref" in v["inner"]
+        sk, sv = _node(_shared(v["inner"]))
+        if sk != "PartitionShared":
+            raise Untranslatable("PartitionSide over " + sk)
+        t = "(SPart %s %s %s)" % (vlib.g_bool(v["is_true"]), _clos(sv["f"]), tr_s(sv["input"]))
+        if second:
+            _EXTRA.append(t)
+        return t
     if k == "AntiJoin":
         nk, nv = _node(v["neg"])
         if nk != "Source" or "Iter" not in nv["source"]:
@@ -1036,6 +1062,16 @@ def tr_b(x):
         return "(BFoldKeyed %s %s %s)" % (_clos(v["init"]), _clos(v["acc"]), tr_b(v["input"]))
     if k == "ReduceKeyed":
         return "(BReduceKeyed %s %s)" % (_clos(v["f"]), tr_b(v["input"]))
+    if k == "Difference":
+        return "(BDifference %s %s)" % (tr_b(v["pos"]), tr_b(v["neg"]))
+    if k == "CrossProduct":
+        return "(BCrossNL %s %s)" % (tr_b(v["left"]), tr_b(v["right"]))
+    if k == "SingletonSource":
+        sig = closure_sig(v["value"] if isinstance(v["value"], str) else v["value"].get("expr", ""))
+        m = re.match(r"^(\d+)\s*[a-z]\w*$", sig.strip())
+        if not m:
+            raise Untranslatable("singleton value " + sig[:60])
+        return "(%s (VN %s))" % ("BFirstTick" if v["first_tick_only"] else "BConst", m.group(1))
     if k == "DeferTick":
         return "(BDefer %s)" % tr_b(v["input"])
     if k == "ChainFirst":
